@@ -194,7 +194,9 @@ def run_history(elfi, kind, stores, hist, b, seed, tmp, outputs=OUTPUTS):
                 except ValueError as e:
                     return dict(what='%s: the pool refuses its own batch_size / seed: %s' % (where, e), signature='c05:context-refused')
                 res = rej.sample(min(3, 2 * b), n_sim=k * b, bar=False)
-                tag = '' if admissible([s for s in pool.stores], outputs) else ' [parameters stored, simulator re-executed]'
+                # admissibility is per batch: a store that does not hold batch i (e.g. a store added later, still empty) is not loaded for it
+                adm = all(admissible([n for n in pool.stores if i in before[n]], outputs) for i in range(k)) and admissible([s for s in pool.stores], outputs)
+                tag = '' if adm else ' [parameters stored, simulator re-executed]'
                 w = same_sample(res, ref)
                 if w:
                     return dict(what='%s: %s%s' % (where, w, tag), signature='c05:params-stored-sim-reexecuted' if tag else 'c05:result-differs')
@@ -241,6 +243,18 @@ def run_history(elfi, kind, stores, hist, b, seed, tmp, outputs=OUTPUTS):
                     if n in pool.stores:
                         _drop(pool, n)
                 variant = (1 - variant[0], variant[1]) if op == 'RP_S2' else (variant[0], 1 - variant[1])
+            elif op == 'RA_d':
+                # the discrepancy is redefined and gets a NEW, EMPTY store while the other stores keep their batches: the stores of one pool
+                # then have different lengths and the next run has to fill `d` for batches the other stores already hold
+                if 'd' not in pool.stores or not [n for n in DOWN if n in pool.stores and n != 'd']:
+                    continue
+                _drop(pool, 'd')
+                if kind == 'array':
+                    fn = os.path.join(pool.path, 'd.npy') if getattr(pool, 'path', None) else None
+                    if fn and os.path.exists(fn):
+                        os.remove(fn)
+                variant = (variant[0], 1 - variant[1])
+                pool.add_store('d')
             elif op == 'RO':
                 if kind == 'array' and pool.has_context:
                     name = pool.name
@@ -263,7 +277,7 @@ def _drop(pool, n):
 
 _pool_ids = itertools.count()
 
-OPS_DICT = ('R2', 'R3', 'AT', 'CL', 'RM_P', 'RM_D', 'RP_S2', 'RP_d')
+OPS_DICT = ('R2', 'R3', 'AT', 'CL', 'RM_P', 'RM_D', 'RP_S2', 'RP_d', 'RA_d')
 OPS_ARRAY = OPS_DICT + ('RO',)
 
 
